@@ -410,7 +410,7 @@ fn tree_strategy() -> BoxedStrategy<WSpec> {
         .boxed()
 }
 
-fn strategy() -> BoxedStrategy<Case> {
+pub fn strategy() -> BoxedStrategy<Case> {
     let shape = prop_oneof![
         4 => tree_strategy().prop_map(Shape::Tree),
         3 => prop::collection::vec(weight32(), 2..=5).prop_map(Shape::Chain),
